@@ -32,7 +32,11 @@ const OPS: &[&str] = &[
     // 50.. : one pipelined batch of n SETs of the SAME key (values v0..v(n-1)) through the batched path; a client's
     // own writes to one key take effect in the order it sent them, so the batch as a whole acts like SET K v(n-1)
     "BSN 33 K", "BSN 65 K", "BSN 130 K",
+    // 53.. : writes that set value AND deadline (two facets of one key: a torn write shows as one client's value with
+    // the other's TTL) and TTL-conditional commands
+    "X SET K 8 EX 100", "X SET K 9 PX 50000", "X SETEX K 200 s", "X GETEX K PERSIST", "X GETEX K EX 300", "X EXPIRE K 50 GT", "X EXPIRE K 500 NX", "X SET K 6 KEEPTTL", "X PEXPIRE K 70000",
 ];
+const TTL_FROM: usize = 53;
 const BSN_FROM: usize = 50;
 const RMW_FROM: usize = 16;
 
@@ -327,6 +331,18 @@ fn run_once(sc: &Scenario, ch: &mut Chooser) -> (RunResult, Vec<String>) {
                 Ok(()) => {
                     let mut h = hist.borrow().clone();
                     h.sort_by_key(|s| (s.client, s.seq));
+                    // an observer that starts after every client has its last reply reads the final state of both
+                    // keys (type, TTL, content): a torn write that no reply has shown yet must still be explained by
+                    // the same total order (a stalled clock would age the TTL, so that group reads no TTL)
+                    let t_end = node.sched.step_counter.load(Ordering::SeqCst) + 1;
+                    for (i, o) in OBSERVER.iter().enumerate() {
+                        if sc.stall && o.starts_with("TTL") {
+                            continue;
+                        }
+                        let a = subst(o, &k, &q);
+                        let r = node.exec(&a).await;
+                        h.push(Single { client: OBSERVER_ID, seq: i, inv: t_end + i as u64, resp: t_end + i as u64, cmd: a, reply: resp::show(&r) });
+                    }
                     (RunResult::Done(h), trace)
                 }
                 Err(e) => (RunResult::Stuck(e), trace),
@@ -334,6 +350,10 @@ fn run_once(sc: &Scenario, ch: &mut Chooser) -> (RunResult, Vec<String>) {
         })
     })
 }
+
+/// What the observer reads once all clients are done (see run_once).
+const OBSERVER: &[&str] = &["TYPE K", "TTL K", "GET K", "LRANGE K 0 -1", "SMEMBERS K", "HGETALL K", "ZRANGE K 0 -1 WITHSCORES", "TYPE Q", "TTL Q", "GET Q"];
+const OBSERVER_ID: usize = 99;
 
 fn paths_of(sc: &Scenario) -> String {
     let mut tags: Vec<String> = sc
@@ -430,7 +450,7 @@ fn main() {
         .spawn();
     const EVAL: usize = 13;
     let all: Vec<usize> = (0..RMW_FROM).collect();
-    let rmw: Vec<usize> = [0usize, 1, 9, 10, 11, 12].into_iter().chain(RMW_FROM..BSN_FROM).collect();
+    let rmw: Vec<usize> = [0usize, 1, 9, 10, 11, 12].into_iter().chain(RMW_FROM..BSN_FROM).chain(TTL_FROM..OPS.len()).collect();
     let no_eval: Vec<usize> = all.iter().copied().filter(|o| *o != EVAL).collect();
     let core: Vec<usize> = vec![0, 1, 3, 4, 5, 6, 7, 8, 9]; // GET SET FG FS PG PS BG BS INCR
     let lua: Vec<usize> = vec![EVAL, 0, 1, 6, 9]; // EVAL GET SET PS INCR  (EVAL builds a Lua VM per call: kept in its own small group)
@@ -447,7 +467,7 @@ fn main() {
         ("2clients x 2ops with Lua, 2 shards", 2, 2, 2, lua.clone(), NONE, NONE),
         ("2clients x 2ops, 1 shard", 1, 2, 2, small.clone(), NONE, NONE),
         ("3clients x 2ops, 2 shards", 2, 3, 2, small[..4].to_vec(), 2, if thorough { 4 } else { 2 }),
-        ("RMW breadth: 2clients x 1op over 34 conditional/read-modify-write commands + SET/GET/INCR/APPEND/DEL/GETSET, 2 shards", 2, 2, 1, rmw.clone(), NONE, NONE),
+        ("RMW breadth: 2clients x 1op over 43 conditional/read-modify-write/value+deadline commands + SET/GET/INCR/APPEND/DEL/GETSET, 2 shards", 2, 2, 1, rmw.clone(), NONE, NONE),
         ("batch order: 1 client, a big same-key SET batch and a read, 2 shards", 2, 1, 2, vec![BSN_FROM, BSN_FROM + 1, BSN_FROM + 2, 0, 3], NONE, NONE),
         ("batch order: a big same-key SET batch next to a second client on another key, 2 shards", 2, 2, 1, vec![BSN_FROM, BSN_FROM + 1, 14, 15], NONE, NONE),
         ("stall: 2clients x 2ops on the pooled/fast paths, one 2 s pause of the clock anywhere, 2 shards", 2, 2, 2, vec![5, 6, 3, 14], NONE, NONE),
